@@ -34,25 +34,27 @@ Section Dqn.
   Definition q_taken (rows : list (list R)) (acts : list Z) : list R := kzip2 (fun row a => nth (Z.to_nat a) row 0) rows acts.
   Definition q_double (trows orows : list (list R)) : list R := kzip2 (fun trow orow => nth (Z.to_nat (kargmax orow)) trow 0) trows orows.
 
-  Lemma dqn_lists gamma (A : list (list R)) acts rew (T O : list (list R)) d t :
-    kzip4 (fun e0 e1 e2 e3 => (nth (Z.to_nat e1) e0 0 - (e2 + e3)) * (nth (Z.to_nat e1) e0 0 - (e2 + e3))) A acts rew
-      (kzip4 (fun e0 e1 e2 e3 => gamma * nth (Z.to_nat (kargmax e1)) e0 0 * b2R (orb (negb e2) e3)) T O d t) =
-    map (sq R Rmult) (map2 R Rminus (q_taken A acts)
-      (map (fun p => td_targetR gamma (fst (fst p)) (snd (fst p)) (fst (snd p)) (snd (snd p)))
-           (combine (combine rew (q_double T O)) (combine d t)))).
+  (* the vector of TD targets *)
+  Lemma dqn_targets gamma rew (T O : list (list R)) d t :
+    kzip5 (fun e0 e1 e2 e3 e4 => e0 + gamma * nth (Z.to_nat (kargmax e2)) e1 0 * b2R (orb (negb e3) e4)) rew T O d t =
+    map (fun p => td_targetR gamma (fst (fst p)) (snd (fst p)) (fst (snd p)) (snd (snd p)))
+        (combine (combine rew (q_double T O)) (combine d t)).
   Proof.
-    revert acts rew T O d t.
-    induction A as [|a A IH]; intros acts rew T O d t; [reflexivity|].
-    destruct acts as [|ac acts]; [reflexivity|].
-    destruct rew as [|r rew]; [reflexivity|].
+    revert T O d t.
+    induction rew as [|r rew IH]; intros T O d t; [reflexivity|].
     destruct T as [|tr T]; [reflexivity|].
     destruct O as [|orow O]; [reflexivity|].
     destruct d as [|dd d]; [reflexivity|].
     destruct t as [|tt t]; [reflexivity|].
-    cbn [kzip4 kzip2 q_taken q_double combine map map2 fst snd].
-    unfold map2 in IH |- *. cbn [combine map fst snd].
+    cbn [kzip5 kzip2 q_double combine map fst snd].
     match goal with |- ?x :: ?l = ?y :: ?l' => assert (Hh : x = y); [|rewrite Hh; apply f_equal; apply IH] end.
-    unfold sq, td_targetR, td_target, b2t, not_terminal, b2R. destruct dd, tt; cbn; ring.
+    unfold td_targetR, td_target, b2t, not_terminal, b2R. destruct dd, tt; cbn; ring.
+  Qed.
+
+  Lemma sq_diff_lists (a b : list R) :
+    kzip2 (fun x y => (x - y) * (x - y)) a b = map (sq R Rmult) (map2 R Rminus a b).
+  Proof.
+    rewrite kzip2_combine. unfold map2. rewrite map_map. reflexivity.
   Qed.
 
   Theorem gen_dqn_loss_eq_model states obs next_states next_obs actions rewards dones timeouts gamma :
@@ -62,7 +64,8 @@ Section Dqn.
       (q_double (qv target next_states next_obs) (qv online next_states next_obs)) dones timeouts.
   Proof.
     unfold gen_dqn_loss, dqn_loss, kmean, mean.
-    rewrite dqn_lists. reflexivity.
+    fold (q_taken (qv online states obs) actions).
+    rewrite dqn_targets, sq_diff_lists. reflexivity.
   Qed.
 End Dqn.
 
